@@ -222,31 +222,36 @@ func TestVfC06Reuse(t *testing.T) {
 			}
 		}()
 		afterCancelStart := false
-		t.Repeat(map[string]func(*rapid.T){
-			"start": func(t *rapid.T) {
-				h.nextTok++
-				e := &vfExch{token: h.nextTok, callerID: rapid.Uint16().Draw(t, "callerID"), done: make(chan struct{})}
-				e.query = vfQuery(e.callerID, e.token)
-				e.orig = append([]byte(nil), e.query...)
-				ctx, cancel := context.WithCancel(context.Background())
-				e.cancel = cancel
-				h.exchs = append(h.exchs, e)
-				go func() {
-					defer close(e.done)
-					m, err := tr.ExchangeContext(ctx, e.query)
-					e.err = err
-					if m != nil {
-						e.gotMsg = true
-						e.respID = m.Header.ID
-						e.respTok, e.tokOK = vfReplyToken(m)
-						dnsmsg.ReleaseMsg(m)
-					}
-				}()
-				h.settle()
-				if h.stats.cancelPending > 0 {
-					afterCancelStart = true
+		// An action whose precondition does not hold starts an exchange instead of skipping: rapid gives up
+		// ("can't find a valid action") after 100 consecutive skipped picks, which happens once in a while
+		// when only one of ten actions is always enabled.
+		var start func(t *rapid.T)
+		start = func(t *rapid.T) {
+			h.nextTok++
+			e := &vfExch{token: h.nextTok, callerID: rapid.Uint16().Draw(t, "callerID"), done: make(chan struct{})}
+			e.query = vfQuery(e.callerID, e.token)
+			e.orig = append([]byte(nil), e.query...)
+			ctx, cancel := context.WithCancel(context.Background())
+			e.cancel = cancel
+			h.exchs = append(h.exchs, e)
+			go func() {
+				defer close(e.done)
+				m, err := tr.ExchangeContext(ctx, e.query)
+				e.err = err
+				if m != nil {
+					e.gotMsg = true
+					e.respID = m.Header.ID
+					e.respTok, e.tokOK = vfReplyToken(m)
+					dnsmsg.ReleaseMsg(m)
 				}
-			},
+			}()
+			h.settle()
+			if h.stats.cancelPending > 0 {
+				afterCancelStart = true
+			}
+		}
+		t.Repeat(map[string]func(*rapid.T){
+			"start": func(t *rapid.T) { start(t) },
 			"cancel": func(t *rapid.T) {
 				var act []*vfExch
 				for _, e := range h.exchs {
@@ -255,7 +260,8 @@ func TestVfC06Reuse(t *testing.T) {
 					}
 				}
 				if len(act) == 0 {
-					t.Skip("no active exchange")
+					start(t)
+					return
 				}
 				e := act[rapid.IntRange(0, len(act)-1).Draw(t, "which")]
 				e.cancel()
@@ -270,7 +276,8 @@ func TestVfC06Reuse(t *testing.T) {
 			"replyWhole": func(t *rapid.T) {
 				p := h.pending()
 				if len(p) == 0 {
-					t.Skip("no pending reply")
+					start(t)
+					return
 				}
 				h.send(p[rapid.IntRange(0, len(p)-1).Draw(t, "conn")], 1<<20)
 				h.settle()
@@ -278,7 +285,8 @@ func TestVfC06Reuse(t *testing.T) {
 			"replyChunked": func(t *rapid.T) {
 				p := h.pending()
 				if len(p) == 0 {
-					t.Skip("no pending reply")
+					start(t)
+					return
 				}
 				c := p[rapid.IntRange(0, len(p)-1).Draw(t, "conn")]
 				for len(h.pending()) > 0 && !h.queries[c][len(h.queries[c])-1].done() {
@@ -290,13 +298,15 @@ func TestVfC06Reuse(t *testing.T) {
 			"replyPartial": func(t *rapid.T) {
 				p := h.pending()
 				if len(p) == 0 {
-					t.Skip("no pending reply")
+					start(t)
+					return
 				}
 				c := p[rapid.IntRange(0, len(p)-1).Draw(t, "conn")]
 				q := h.queries[c][len(h.queries[c])-1]
 				left := len(q.reply) - q.sent
 				if left < 2 {
-					t.Skip("nothing to split")
+					start(t)
+					return
 				}
 				h.send(c, rapid.IntRange(1, left-1).Draw(t, "part"))
 				h.stats.partial++
@@ -305,16 +315,19 @@ func TestVfC06Reuse(t *testing.T) {
 			"replyGarbage": func(t *rapid.T) {
 				p := h.pending()
 				if len(p) == 0 {
-					t.Skip("no pending reply")
+					start(t)
+					return
 				}
 				c := p[rapid.IntRange(0, len(p)-1).Draw(t, "conn")]
 				q := h.queries[c][len(h.queries[c])-1]
 				if q.sent > 0 {
-					t.Skip("reply already started")
+					start(t)
+					return
 				}
 				body, _ := vfkit.GenHostile(t)
 				if d := vfkit.Decode(body); d.Err == nil && d.Counts == d.Present {
-					t.Skip("drawn body happens to be decodable")
+					start(t)
+					return
 				}
 				if len(body) > 2000 {
 					body = body[:2000]
@@ -329,7 +342,8 @@ func TestVfC06Reuse(t *testing.T) {
 			"abortReply": func(t *rapid.T) {
 				p := h.pending()
 				if len(p) == 0 {
-					t.Skip("no pending reply")
+					start(t)
+					return
 				}
 				c := p[rapid.IntRange(0, len(p)-1).Draw(t, "conn")]
 				var err error
@@ -349,14 +363,16 @@ func TestVfC06Reuse(t *testing.T) {
 					}
 				}
 				if len(idle) == 0 {
-					t.Skip("no idle connection")
+					start(t)
+					return
 				}
 				srv.snapshot()[idle[rapid.IntRange(0, len(idle)-1).Draw(t, "conn")]].ServerClose(nil)
 				h.settle()
 			},
 			"idleWait": func(t *rapid.T) {
 				if idleTimeout > time.Second {
-					t.Skip("no short idle timeout in this case")
+					start(t)
+					return
 				}
 				time.Sleep(time.Duration(rapid.IntRange(20, 45).Draw(t, "ms")) * time.Millisecond)
 				h.stats.idle++
